@@ -153,7 +153,7 @@ class HashInfo:
     def __init__(self) -> None:
         self.fields: Set[str] = set()
         self.delegates: List[FuncInfo] = []
-        self.bad: List[Tuple[ast.AST, str]] = []
+        self.bad: List[Tuple[FuncInfo, ast.AST, str]] = []
         self.uses_class = False
 
 
@@ -223,7 +223,7 @@ def _hash_value(repo: Repo, fi: FuncInfo, node: ast.AST, info: HashInfo, self_n:
             _hashed_object(repo, fi, node.args[0], info, self_n)
             return
         if cn == ("id",):
-            info.bad.append((node, "hash built from id(): identity based, differs between equal objects"))
+            info.bad.append((fi, node, "hash built from id(): identity based, differs between equal objects"))
             return
         if cn and len(cn) == 2 and cn[1] == "__hash__":
             if cn[0] == "super()":
@@ -238,16 +238,16 @@ def _hash_value(repo: Repo, fi: FuncInfo, node: ast.AST, info: HashInfo, self_n:
                 if has_value_base(repo, fi.cls.name):
                     info.fields.add("<tuple>")
                     return
-                info.bad.append((node, "super().__hash__() resolves to object.__hash__: identity based"))
+                info.bad.append((fi, node, "super().__hash__() resolves to object.__hash__: identity based"))
                 return
             if cn[0] in VALUE_BASES:
                 if len(node.args) == 1 and isinstance(node.args[0], ast.Name) and node.args[0].id == self_n:
                     info.fields.add("<tuple>")
                     return
-                info.bad.append((node, f"{unparse(node)} does not hash self"))
+                info.bad.append((fi, node, f"{unparse(node)} does not hash self"))
                 return
             if cn[0] == "object":
-                info.bad.append((node, "object.__hash__ is identity based"))
+                info.bad.append((fi, node, "object.__hash__ is identity based"))
                 return
             if repo.has_cls(cn[0]):
                 m = repo.method(cn[0], "__hash__")
@@ -261,7 +261,7 @@ def _hash_value(repo: Repo, fi: FuncInfo, node: ast.AST, info: HashInfo, self_n:
                 if has_value_base(repo, cn[0]):
                     info.fields.add("<tuple>")
                     return
-                info.bad.append((node, f"{cn[0]}.__hash__ is object.__hash__: identity based"))
+                info.bad.append((fi, node, f"{cn[0]}.__hash__ is object.__hash__: identity based"))
                 return
         if cn and len(cn) == 2 and cn[0] == self_n and fi.cls is not None:
             m = repo.method(fi.cls.name, cn[1])
@@ -284,7 +284,7 @@ def _hashed_object(repo: Repo, fi: FuncInfo, node: ast.AST, info: HashInfo, self
         return
     if isinstance(node, ast.Name):
         if node.id == self_n:
-            info.bad.append((node, "hash(self) inside __hash__ recurses"))
+            info.bad.append((fi, node, "hash(self) inside __hash__ recurses"))
             return
         val = _local_value(fi, node.id)
         if val is None:
@@ -297,31 +297,36 @@ def _hashed_object(repo: Repo, fi: FuncInfo, node: ast.AST, info: HashInfo, self
             info.uses_class = True
             return
         if fi.cls is not None and repo.method(fi.cls.name, ch[1]) is not None:
-            info.bad.append((node, f"hashes the bound method self.{ch[1]}: not a value of the object"))
+            info.bad.append((fi, node, f"hashes the bound method self.{ch[1]}: not a value of the object"))
             return
         info.fields.add(ch[1])
         return
     if isinstance(node, (ast.Lambda, ast.GeneratorExp)):
-        info.bad.append((node, "hashes a lambda/generator: identity based temporary"))
+        info.bad.append((fi, node, "hashes a lambda/generator: identity based temporary"))
         return
     if isinstance(node, (ast.List, ast.ListComp, ast.Set, ast.SetComp, ast.Dict, ast.DictComp)):
-        info.bad.append((node, "hashes an unhashable display"))
+        info.bad.append((fi, node, "hashes an unhashable display"))
         return
     if isinstance(node, ast.Call):
         cn = call_name(node)
         if cn == ("super",):
-            info.bad.append((node, "hash(super()) hashes a temporary proxy object: identity based, unequal for equal objects and unstable across allocations"))
+            info.bad.append((fi, node, "hash(super()) hashes a temporary proxy object: identity based, unequal for equal objects and unstable across allocations"))
             return
         if cn in (("object",), ("id",)):
-            info.bad.append((node, f"hash of {unparse(node)} is identity based"))
+            info.bad.append((fi, node, f"hash of {unparse(node)} is identity based"))
             return
         if cn == ("type",) and len(node.args) == 1:
             info.uses_class = True
             return
         if cn in (("tuple",), ("frozenset",), ("sorted",), ("str",), ("repr",), ("len",), ("int",)):
             if cn == ("sorted",):
-                info.bad.append((node, "hash(sorted(..)) hashes a list: raises TypeError"))
+                info.bad.append((fi, node, "hash(sorted(..)) hashes a list: raises TypeError"))
                 return
+            if cn in (("tuple",), ("str",), ("repr",)) and node.args and fi.cls is not None:
+                a0 = attr_chain(node.args[0])
+                if a0 and len(a0) == 2 and a0[0] == self_n and a0[1] in set_typed_fields(repo, fi.cls.name):
+                    info.bad.append((fi, node, f"{cn[0]}(self.{a0[1]}) traverses a set in its internal order, which depends on insertion history: equal objects can hash differently"))
+                    return
             for a in node.args:
                 if isinstance(a, ast.Name) and a.id == self_n:
                     info.fields.add("<tuple>")
@@ -334,7 +339,7 @@ def _hashed_object(repo: Repo, fi: FuncInfo, node: ast.AST, info: HashInfo, self
         if cn and len(cn) == 1 and repo.has_cls(cn[0]):
             target = cn[0]
             if repo.method(target, "__hash__") is None and not has_value_base(repo, target):
-                info.bad.append((node, f"hashes a fresh {target} instance whose hash is identity based"))
+                info.bad.append((fi, node, f"hashes a fresh {target} instance whose hash is identity based"))
                 return
             for a in node.args:
                 _hashed_object(repo, fi, a, info, self_n)
@@ -453,8 +458,9 @@ def rule_r2_r3(ctx: Ctx, classes: List[ClassInfo]) -> Dict[str, HashInfo]:
         info = analyse_hash(repo, hf)
         infos[ci.name] = info
         if info.bad:
-            for node, msg in info.bad:
-                ctx.violation("C08-R2", hf, node if hasattr(node, "lineno") else hf.node, msg)
+            for bfi, node, msg in info.bad:
+                # reported where the offending expression is (a delegating subclass inherits the defect)
+                ctx.violation("C08-R2", bfi, node if hasattr(node, "lineno") else bfi.node, msg)
         else:
             ctx.ok("C08-R2", hf.where, f"hash is value based over fields {sorted(info.fields)}", hf.node, hf)
         # R3 against the effective __eq__ of the same class
@@ -613,57 +619,206 @@ def rule_r5_r6(ctx: Ctx, classes: List[ClassInfo], groups: List[Set[str]]) -> No
                     ctx.ok("C08-R5", fi.where, f"guard on fixed class {sorted(g.names)} covers the group {sorted(group)}", g.node, fi)
             else:
                 ctx.ok("C08-R5", fi.where, "no restricting type guard (dynamic guard without inheriting subclasses, or none)", fi.node, fi)
-            # ---- R6 collect
-            kind, sk, ok_, node = order_compare(fi)
-            if kind.startswith("reflect:"):
-                keys[m] = (kind, "")
-            else:
-                ks, ko = key_text(sk, fi.params[0]), key_text(ok_, fi.params[1])
-                if ks != ko:
-                    ctx.violation("C08-R6", fi, node, f"{m} compares different keys for self ({ks}) and other ({ko})")
-                keys[m] = (kind, ks)
-                check_key_components(ctx, ci, fi, sk, node)
-        # consistency among the four
-        expect = {"__lt__": "<", "__le__": "<=", "__gt__": ">", "__ge__": ">="}
-        reflect = {"__gt__": "reflect:__lt__", "__ge__": "reflect:__le__", "__lt__": "reflect:__gt__", "__le__": "reflect:__ge__"}
-        direct_keys = {k for (kind, k) in keys.values() if not kind.startswith("reflect:")}
+        # ---- R6: decided semantically over the finite set of orderings of the key components
+        rule_r6_semantic(ctx, ci, own)
+
+
+# ------------------------------------------------------------------ R6 as a finite evaluation
+
+ORDER_OPS = {ast.Lt: "<", ast.LtE: "<=", ast.Gt: ">", ast.GtE: ">=", ast.Eq: "==", ast.NotEq: "!="}
+INV = {"lt": "gt", "eq": "eq", "gt": "lt"}
+
+
+def _apply(op: str, rel: str) -> bool:
+    return {"<": rel == "lt", "<=": rel in ("lt", "eq"), ">": rel == "gt", ">=": rel in ("gt", "eq"), "==": rel == "eq", "!=": rel != "eq"}[op]
+
+
+def _lex(rels: List[str]) -> str:
+    for r in rels:
+        if r != "eq":
+            return r
+    return "eq"
+
+
+class OrderEval:
+    """Evaluates a comparison dunder on an abstract case: for every key component c, the relation
+    (lt / eq / gt) between c(self) and c(other).  Values are touched only through comparisons, so the
+    finite set of cases is exhaustive."""
+
+    def __init__(self, repo: Repo, ci: ClassInfo):
+        self.repo, self.ci = repo, ci
+        self.components: Dict[str, ast.AST] = {}
+        self.discover = False
+
+    def comp_of(self, fi: FuncInfo, node: ast.AST) -> Optional[Tuple[str, str]]:
+        """(component text with the object replaced by $, which object: 'self' | 'other')"""
+        names = {n.id for n in ast.walk(node) if isinstance(n, ast.Name)}
+        s_n, o_n = fi.params[0], fi.params[1]
+        if s_n in names and o_n in names:
+            return None
+        who = "self" if s_n in names else "other" if o_n in names else None
+        if who is None:
+            return None
+        txt = key_text(node, s_n if who == "self" else o_n)
+        if who == "self":
+            self.components.setdefault(txt, node)
+        return txt, who
+
+    def rel(self, fi: FuncInfo, l: ast.AST, r: ast.AST, case: Dict[str, str]) -> str:
+        if isinstance(l, ast.Tuple) and isinstance(r, ast.Tuple) and len(l.elts) == len(r.elts):
+            return _lex([self.rel(fi, a, b, case) for a, b in zip(l.elts, r.elts)])
+        cl, cr = self.comp_of(fi, l), self.comp_of(fi, r)
+        if cl is None or cr is None or cl[0] != cr[0] or cl[1] == cr[1]:
+            raise AnalysisError(f"{fi.where}: comparison of `{unparse(l)}` with `{unparse(r)}` is not between the same key component of the two operands")
+        if self.discover:
+            return "eq"
+        if cl[0] not in case:
+            raise AnalysisError(f"{fi.where}: key component {cl[0]} appears only on some paths")
+        base = case[cl[0]]  # relation of component(self) to component(other)
+        return base if cl[1] == "self" else INV[base]
+
+    def expr(self, fi: FuncInfo, node: ast.AST, case: Dict[str, str], depth: int):
+        if isinstance(node, ast.Constant) and isinstance(node.value, bool):
+            return node.value
+        if isinstance(node, ast.Name) and node.id == "NotImplemented":
+            return "NotImplemented"
+        if isinstance(node, ast.UnaryOp) and isinstance(node.op, ast.Not):
+            return not self.expr(fi, node.operand, case, depth)
+        if isinstance(node, ast.BoolOp):
+            vals = [self.expr(fi, v, case, depth) for v in node.values]
+            return all(vals) if isinstance(node.op, ast.And) else any(vals)
+        if isinstance(node, ast.IfExp):
+            return self.expr(fi, node.body if self.expr(fi, node.test, case, depth) else node.orelse, case, depth)
+        if isinstance(node, ast.Compare):
+            operands = [node.left] + list(node.comparators)
+            out = True
+            for i, op in enumerate(node.ops):
+                sym = ORDER_OPS.get(type(op))
+                if sym is None:
+                    raise AnalysisError(f"{fi.where}: operator in `{unparse(node)}` not supported")
+                out = out and _apply(sym, self.rel(fi, operands[i], operands[i + 1], case))
+            return out
+        if isinstance(node, ast.Call):
+            cn = call_name(node)
+            if cn == ("isinstance",):
+                return True  # operands of the group: the guard is judged by R5
+            if cn and len(cn) == 2 and cn[1] in CMP and len(node.args) == 1 and depth < 4:
+                recv, arg = cn[0], unparse(node.args[0])
+                target = self.repo.method(self.ci.name, cn[1])
+                if target is None:
+                    raise AnalysisError(f"{fi.where}: {cn[1]} not found")
+                if recv == fi.params[1] and arg == fi.params[0]:
+                    return self.method(target, {k: INV[v] for k, v in case.items()}, depth + 1)
+                if recv == fi.params[0] and arg == fi.params[1]:
+                    return self.method(target, case, depth + 1)
+        raise AnalysisError(f"{fi.where}: expression `{unparse(node)[:60]}` is outside the comparison fragment")
+
+    def method(self, fi: FuncInfo, case: Dict[str, str], depth: int = 0):
+        def block(stmts):
+            for st in stmts:
+                if isinstance(st, ast.Return):
+                    return ("ret", self.expr(fi, st.value, case, depth))
+                if isinstance(st, ast.If):
+                    r = block(st.body if self.expr(fi, st.test, case, depth) else st.orelse)
+                    if r is not None:
+                        return r
+                    continue
+                raise AnalysisError(f"{fi.where}: statement `{unparse(st)[:50]}` is outside the comparison fragment")
+            return None
+
+        r = block(fi.body)
+        if r is None:
+            raise AnalysisError(f"{fi.where}: falls off the end")
+        return r[1]
+
+
+def rule_r6_semantic(ctx: Ctx, ci: ClassInfo, own: List[str]) -> None:
+    import itertools
+
+    repo = ctx.repo
+    ev = OrderEval(repo, ci)
+    # discover the key components (first pass with a permissive case map)
+    ev.discover = True
+    for m in own:
+        # walk every comparison of the method (both arms of every branch) to collect the components
+        for node in walk_no_nested(ci.methods[m].node):
+            if isinstance(node, ast.Compare) and any(type(o) in ORDER_OPS for o in node.ops):
+                ops = [node.left] + list(node.comparators)
+                for a, b in zip(ops, ops[1:]):
+                    try:
+                        ev.rel(ci.methods[m], a, b, {})
+                    except AnalysisError:
+                        pass
+    ev.discover = False
+    comps = sorted(ev.components)
+    if not comps or len(comps) > 3:
+        raise AnalysisError(f"{ci.where}: {len(comps)} key components found in the ordering methods")
+    first = ci.methods[own[0]]
+    for c in comps:
+        check_key_components(ctx, ci, first, ev.components[c], first.node)
+    tuple_sub = effective(repo, ci.name, "__eq__") is None and has_value_base(repo, ci.name)
+    cases = []
+    for rels in itertools.product(("lt", "eq", "gt"), repeat=len(comps)):
+        case = dict(zip(comps, rels))
+        if tuple_sub and "tuple($)" in case and "len($)" in case and case["tuple($)"] == "eq" and case["len($)"] != "eq":
+            continue  # equal tuples have equal length
+        cases.append(case)
+    table: Dict[str, List[bool]] = {}
+    for m in own:
+        vals = []
+        for case in cases:
+            v = ev.method(ci.methods[m], case)
+            if v == "NotImplemented":
+                raise AnalysisError(f"{ci.methods[m].where}: returns NotImplemented for operands of the group")
+            vals.append(bool(v))
+        table[m] = vals
+    sym = {"__lt__": "<", "__le__": "<=", "__gt__": ">", "__ge__": ">="}
+    orders = [list(p) for p in itertools.permutations(comps)]
+    if tuple_sub:
+        if set(comps) != {"len($)", "tuple($)"}:
+            ctx.violation("C08-R6", first, first.node, f"ordering of the tuple subclass {ci.name} uses the key components {comps}; 'by length then lexicographically' is (len, entries)")
+            return
+        orders = [["len($)", "tuple($)"]]
+    best = None
+    for order in orders:
+        diffs = []
         for m in own:
-            kind, k = keys[m]
+            for case, got in zip(cases, table[m]):
+                want = _apply(sym[m], _lex([case[c] for c in order]))
+                if got != want:
+                    diffs.append((m, case, got, want))
+        if best is None or len(diffs) < len(best[1]):
+            best = (order, diffs)
+    order, diffs = best
+    pretty = lambda c: ", ".join(f"{k.replace('$', 'self')} {'<' if v == 'lt' else '=' if v == 'eq' else '>'} {k.replace('$', 'other')}" for k, v in c.items())
+    if diffs:
+        seen = set()
+        for m, case, got, want in diffs:
+            if m in seen:
+                continue
+            seen.add(m)
             fi = ci.methods[m]
-            if kind == expect[m] or kind == reflect[m]:
-                ctx.ok("C08-R6", fi.where, f"{m} is '{kind}' on key {k or '(reflected)'}", fi.node, fi)
-            else:
-                ctx.violation("C08-R6", fi, fi.node, f"{m} implemented as '{kind}': not the operator its name states")
-        if len(direct_keys) > 1:
-            fi = ci.methods[own[0]]
-            ctx.violation("C08-R6", fi, fi.node, f"ordering methods of {ci.name} use different keys: {sorted(direct_keys)}")
-        # key fields vs eq fields / Perm spec
-        if direct_keys:
-            key = sorted(direct_keys)[0]
-            ef = effective(repo, ci.name, "__eq__")
-            fi = ci.methods[own[0]]
-            if ef is None and has_value_base(repo, ci.name):
-                # tuple subclass: spec (length, entries)
-                want = "(len($), tuple($))"
-                if key.replace(" ", "") == want.replace(" ", ""):
-                    ctx.ok("C08-R6", ci.where, "tuple subclass ordered by (length, entries); key equality <=> tuple equality")
-                else:
-                    ctx.violation("C08-R6", fi, fi.node, f"ordering key {key} is not (len(self), tuple(self)): not 'by length then lexicographically'")
-            elif ef is not None:
-                eqf, _ = eq_fields(repo, ef)
-                kfields = set()
-                for m in own:
-                    kind, _k = keys[m]
-                    if not kind.startswith("reflect:"):
-                        _kind, sk, _o, _n = order_compare(ci.methods[m])
-                        for sub in ast.walk(sk):
-                            ch = attr_chain(sub)
-                            if ch and len(ch) == 2 and ch[0] == ci.methods[m].params[0]:
-                                kfields.add(ch[1])
-                if kfields == eqf:
-                    ctx.ok("C08-R6", ci.where, f"ordering key fields {sorted(kfields)} = equality fields: a<=b and b<=a iff a==b")
-                else:
-                    ctx.violation("C08-R6", fi, fi.node, f"ordering key fields {sorted(kfields)} differ from equality fields {sorted(eqf)}: order inconsistent with ==")
+            ctx.violation("C08-R6", fi, fi.node, f"{m} is not `{sym[m]}` of the total order by ({', '.join(c.replace('$', 'self') for c in order)}): when {pretty(case)} it returns {got}, the order gives {want}")
+    else:
+        for m in own:
+            fi = ci.methods[m]
+            ctx.ok("C08-R6", fi.where, f"{m} = `{sym[m]}` of the lexicographic order by ({', '.join(order)}) on all {len(cases)} abstract cases", fi.node, fi)
+    # consistency with equality: the key components are the compared fields
+    ef = effective(repo, ci.name, "__eq__")
+    if ef is not None:
+        eqf, _ = eq_fields(repo, ef)
+        kfields = set()
+        for c in comps:
+            for sub in ast.walk(ev.components[c]):
+                ch = attr_chain(sub)
+                if ch and len(ch) == 2 and ch[0] == first.params[0]:
+                    kfields.add(ch[1])
+        if kfields == eqf:
+            ctx.ok("C08-R6", ci.where, f"ordering key fields {sorted(kfields)} = equality fields: a<=b and b<=a iff a==b")
+        else:
+            ctx.violation("C08-R6", first, first.node, f"ordering key fields {sorted(kfields)} differ from equality fields {sorted(eqf)}: order inconsistent with ==")
+    elif tuple_sub:
+        ctx.ok("C08-R6", ci.where, "tuple subclass ordered by (length, entries); key equality <=> tuple equality")
 
 
 def check_key_components(ctx: Ctx, ci: ClassInfo, fi: FuncInfo, key: ast.AST, node: ast.AST) -> None:
@@ -861,5 +1016,10 @@ def _variants():
         V("biv-hash-explicit-base", replace_expr(BV, "BivincularPatt.__hash__", "super().__hash__()", "MeshPatt.__hash__(self)"), "silent"),
         V("mesh-gt-direct", replace_stmt(MP, "MeshPatt.__gt__", "return other.__lt__(self)", "return (self.pattern, sorted(self.shading)) > (other.pattern, sorted(other.shading))"), "silent"),
         V("rename-other", rename_local(MP, "MeshPatt.__lt__", "other", "rhs"), "silent"),
+        V("perm-le-cascaded-correct", replace_stmt(PE, "Perm.__le__", "return (len(self), tuple(self)) <= (len(other), tuple(other))",
+                                                   "if len(self) != len(other):\n    return len(self) < len(other)\nreturn tuple(self) <= tuple(other)"), "silent", note="a correct case analysis is the same order on all abstract cases"),
+        V("perm-le-cascaded-wrong", replace_stmt(PE, "Perm.__le__", "return (len(self), tuple(self)) <= (len(other), tuple(other))",
+                                                 "if len(self) < len(other):\n    return True\nreturn tuple(self) <= tuple(other)"), "fire", "C08-R6"),
+        V("mesh-lt-components-swapped", [replace_expr(MP, "MeshPatt.__lt__", "(self.pattern, sorted(self.shading)) < (other.pattern, sorted(other.shading))", "(sorted(self.shading), self.pattern) < (sorted(other.shading), other.pattern)")], "fire", "C08-R6", note="__lt__ and __le__ would then order by different keys"),
         V("mesh-eq-guard-meshpatt", replace_expr(MP, "MeshPatt.__eq__", "isinstance(other, self.__class__)", "isinstance(other, MeshPatt)"), "silent"),
     ]
